@@ -106,8 +106,9 @@ def map_rule(chk, db):
                 elif not want:
                     problems.append("new enumerator %s has no specified mapping in the table" % e_["n"])
             chk.obligation("MAP", construct, not problems, evaluations=len(en["enumerators"]))
-            for m in problems[:3]:
-                chk.violation("MAP", construct, "error-mapping", "%s: %s" % (astx.loc(f), m), {"where": astx.loc(f)})
+            for m in problems[:4]:
+                wc = "error-ptr" if "returns ptr" in m else ("value-stored" if "is stored before" in m else ("unmapped" if "not mapped" in m else "wrong-errc"))
+                chk.violation("MAP", construct, wc, "%s: %s" % (astx.loc(f), m), {"where": astx.loc(f)})
             if not problems:
                 chk.sample({"rule": "MAP", "function": construct, "mapping": handled})
     if n < 2:
